@@ -5,6 +5,8 @@
 //   sec | name        [name]                (names are mapped onto identifiers; a repeated section name is skipped)
 //   kv style | k v    k=v / k = v / k= v / k =v  (a key already present in its section is skipped; values are stripped of
 //                     leading/trailing blanks, line breaks inside become '_')
+//   kvd / secd        like kv / sec, but the line may repeat a key the section already has / an earlier section header (a reader takes the
+//                     last line of a key; after a set() on it every fresh reader must return the set value)
 //   com k | text      #text or ;text (bit0), indented (bit1)
 //   blank
 //   set form | s k v  set("s/k", v); form 1 and s empty: set("k", v), executed only when "the current section" can only mean
@@ -169,8 +171,14 @@ static void ini_check_values(const std::string& path, const IniModel& m, const s
 static void ini_check_order(const std::string& raw, const IniModel& m, const std::string& ctx)
 {
 	std::vector<IniItem> out = ref_parse(raw);
-	size_t k = 0;
+	// a key may have several lines (duplicates in the original text): a reader takes the last one, only that one's value is judged
+	std::map<std::pair<std::string, std::string>, size_t> lastline;
+	for (size_t i = 0; i < out.size(); i++)
+		if (out[i].type == 2)
+			lastline[{out[i].sec, out[i].key}] = i;
+	size_t k = 0, outidx = (size_t)-1;
 	for (const IniItem& it : out) {
+		outidx++;
 		bool isnew = (it.type == 1 && !m.filesecs.count(it.sec)) || (it.type == 2 && !m.infile.count({it.sec, it.key}));
 		if (isnew)
 			continue;
@@ -178,7 +186,7 @@ static void ini_check_order(const std::string& raw, const IniModel& m, const std
 		const IniItem& w = m.orig[k];
 		bool same = it.type == w.type && (it.type == 0 ? it.text == w.text : it.type == 1 ? it.sec == w.sec : (it.sec == w.sec && it.key == w.key));
 		VF_CHECK(same, ctx, ": original lines out of order or changed: found ", show_item(it), " where ", show_item(w), " was expected\nfile:\n", vf::show(raw, 600));
-		if (it.type == 2) {
+		if (it.type == 2 && lastline[{it.sec, it.key}] == outidx) {
 			auto f = m.val.find({it.sec, it.key});
 			VF_CHECK(f != m.val.end() && f->second == it.value, ctx, ": the file has ", show_item(it), ", the value should be ", vf::show(f == m.val.end() ? std::string("?") : f->second));
 		}
@@ -240,18 +248,18 @@ static IniText ini_text(const vf::Case& c)
 	for (const vf::Op& o : c.ops) {
 		if (lines.size() >= 80)
 			break;
-		if (o.name == "sec") {
+		if (o.name == "sec" || o.name == "secd") {
 			std::string n = ident(o.str(0));
-			if (secs.count(n))
+			if (secs.count(n) && o.name == "sec") // "secd": the header may repeat an earlier one
 				continue;
 			secs.insert(n);
 			sec = n;
 			lines.push_back("[" + n + "]");
 			t.nsec++;
 		}
-		else if (o.name == "kv") {
+		else if (o.name == "kv" || o.name == "kvd") {
 			std::string k = ident(o.str(0)), v = value_of(o.str(1));
-			if (keys.count({sec, k}))
+			if (keys.count({sec, k}) && o.name == "kv") // "kvd": a further line for a key the section already has (the last line counts)
 				continue;
 			keys.insert({sec, k});
 			int st = (int)(o.i(0) & 3);
@@ -423,7 +431,13 @@ static Table csv_table(const vf::Case& c)
 		t.cols.push_back("c0");
 	for (const vf::Op& o : c.ops)
 		if (o.name == "cols") {
-			t.cfg = t.cols.size() >= 2 ? (int)(((o.i(1) % 3) + 3) % 3) : 0;
+			// 0..2 as described above; 3 separator '|', 4 separator ' ', 5 separator ';' for a ONE-column table: these cannot be recognised
+			// from the header, writer and reader both get the same setSeparator()
+			t.cfg = (int)(((o.i(1) % 6) + 6) % 6);
+			if (t.cfg == 5 && t.cols.size() >= 2)
+				t.cfg = 1;
+			if ((t.cfg == 1 || t.cfg == 2) && t.cols.size() < 2)
+				t.cfg = 0;
 			break;
 		}
 	if (t.cfg && t.how == 2)
@@ -533,6 +547,8 @@ static void run_csv(const vf::Case& c)
 			}
 			else if (t.cfg == 2)
 				f->setSeparator('\t');
+			else if (t.cfg >= 3)
+				f->setSeparator(t.cfg == 3 ? '|' : t.cfg == 4 ? ' ' : ';');
 			if (t.how == 0)
 				f->columns(names);
 			else
@@ -570,6 +586,8 @@ static void run_csv(const vf::Case& c)
 	VF_CHECK(ref::slurp(path, raw), "the CSV file was not created");
 	{
 		TabularDataFile f(AS(path));
+		if (t.cfg >= 3)
+			f.setSeparator(t.cfg == 3 ? '|' : t.cfg == 4 ? ' ' : ';');
 		Array<Array<Var>> d = f.data();
 		const Array<String>& cols = f.columns();
 		VF_CHECK((size_t)cols.length() == t.cols.size(), "data(): ", cols.length(), " column names read back, ", t.cols.size(), " written\nfile:\n", vf::show(raw, 500));
@@ -584,6 +602,8 @@ static void run_csv(const vf::Case& c)
 	}
 	{
 		TabularDataFile f(AS(path));
+		if (t.cfg >= 3)
+			f.setSeparator(t.cfg == 3 ? '|' : t.cfg == 4 ? ' ' : ';');
 		size_t r = 0;
 		while (f.nextRow()) {
 			VF_CHECK(r < t.rows.size(), "nextRow() delivers more than the ", t.rows.size(), " rows written\nfile:\n", vf::show(raw, 500));
@@ -721,6 +741,63 @@ static Gen<vf::Case> inilonggen()
 			if (w == 0)
 				c.add(vf::Op("write"));
 			else if (w == 1)
+				c.add(vf::Op("reopen"));
+		}
+		return c;
+	});
+}
+
+// files in which a key has 2..3 lines (different old values) and / or a section header appears twice, and that key is set()
+static Gen<vf::Case> inidupgen()
+{
+	return gen::exec([]() {
+		vf::Case c;
+		c.add(vf::Op("fmt", {*vf::irange<int>(0, 3) | (*gen::elementOf(std::vector<int>{0, 0, 1, 2}) << 2)}));
+		auto S1 = [](const char* n, std::initializer_list<std::string> strs, long long a0 = 0) {
+			vf::Op o(n, {a0});
+			o.s = strs;
+			return o;
+		};
+		std::string sec = *gen::elementOf(std::vector<std::string>{"a", "main", "net"}), key = *gen::elementOf(std::vector<std::string>{"k", "color", "size"});
+		bool pre = *vf::irange<int>(0, 5) == 0; // the duplicated key lives before the first section
+		if (!pre)
+			c.add(S1("sec", {sec}));
+		c.add(S1("kv", {key, *valuegen()}, *vf::irange<int>(0, 3)));
+		if (*vf::irange<int>(0, 2))
+			c.add(S1("com", {"note"}, *vf::irange<int>(0, 3)));
+		if (*vf::irange<int>(0, 3))
+			c.add(S1("kv", {"other", *valuegen()}));
+		bool dupkey = *vf::irange<int>(0, 9) < 7;
+		if (dupkey)
+			c.add(S1("kvd", {key, *valuegen()}, *vf::irange<int>(0, 3)));
+		if (*vf::irange<int>(0, 1)) {
+			c.add(S1("sec", {"zz"}));
+			c.add(S1("kv", {"x", *valuegen()}));
+		}
+		if (!pre && (!dupkey || *vf::irange<int>(0, 1))) {
+			c.add(S1("secd", {sec}));
+			c.add(S1("kvd", {key, *valuegen()}, *vf::irange<int>(0, 3)));
+			if (*vf::irange<int>(0, 1))
+				c.add(S1("kv", {"late", *valuegen()}));
+		}
+		int n = *vf::irange<int>(1, 3);
+		for (int i = 0; i < n; i++) {
+			vf::Op o("set", {0});
+			int w = *vf::irange<int>(0, 9);
+			std::string s = pre ? std::string() : sec;
+			if (i == 0 || w < 4)
+				o.s = {s, key, *valuegen()};
+			else if (w < 7)
+				o.s = {s, *gen::elementOf(std::vector<std::string>{"newkey", "other", "late"}), *valuegen()};
+			else
+				o.s = {"fresh", "k", *valuegen()};
+			if (pre && !(i == 0 || w < 4) && w < 7)
+				o.s[0] = "zz";
+			c.add(o);
+			int u = *vf::irange<int>(0, 9);
+			if (u == 0)
+				c.add(vf::Op("write"));
+			else if (u == 1)
 				c.add(vf::Op("reopen"));
 		}
 		return c;
@@ -937,7 +1014,7 @@ static Gen<vf::Case> csvgen()
 	return gen::exec([cellgen]() {
 		vf::Case c;
 		int ncols = *gen::elementOf(std::vector<int>{1, 1, 2, 2, 3, 3, 4, 5, 6, 7, 8, 8});
-		vf::Op cols("cols", {*vf::irange<int>(0, 2), *gen::elementOf(std::vector<int>{0, 0, 0, 1, 1, 2})});
+		vf::Op cols("cols", {*vf::irange<int>(0, 2), *gen::elementOf(std::vector<int>{0, 0, 0, 1, 1, 2, 3, 4, 5, 5})});
 		for (int i = 0; i < ncols; i++)
 			cols.s.push_back(*identgen());
 		c.add(cols);
@@ -957,7 +1034,8 @@ static void classify_csv(const vf::Case& c)
 	auto& st = vf::stats();
 	Table t = csv_table(c);
 	bool quote = false, sep = false, semi = false, num = false, empty = false, spaces = false, arr = false, frac = false;
-	st.cls(t.cfg == 0 ? "csv.config.comma_and_dot(default)" : t.cfg == 1 ? "csv.config.semicolon_and_decimal_comma" : "csv.config.tab_separator");
+	st.cls(t.cfg == 0 ? "csv.config.comma_and_dot(default)" : t.cfg == 1 ? "csv.config.semicolon_and_decimal_comma" : t.cfg == 2 ? "csv.config.tab_separator" : t.cfg == 3 ? "csv.config.bar_separator_set_on_reader" :
+	       t.cfg == 4 ? "csv.config.blank_separator_set_on_reader" : "csv.config.one_column_semicolon_set_on_reader");
 	for (size_t r = 0; r < t.rows.size(); r++) {
 		if (t.rowmode[r])
 			arr = true;
@@ -1021,6 +1099,19 @@ static void classify_csv(const vf::Case& c)
 void vf_search(const vf::Args& a)
 {
 	[&]() { vf::check_cases("ini", a.n(2000, 10000), 100, inigen(), classify_ini); }();
+	[&]() {
+		vf::check_cases("inidup", a.n(250, 2500), 100, inidupgen(), [](const vf::Case& c) {
+			bool dk = false, ds = false;
+			for (auto& o : c.ops) {
+				if (o.name == "kvd")
+					dk = true;
+				if (o.name == "secd")
+					ds = true;
+			}
+			vf::stats().cls(dk && ds ? "ini.dup.key_lines_and_section_header_repeated" : ds ? "ini.dup.section_header_repeated" : "ini.dup.key_lines_repeated");
+			vf::stats().nt(vf::fnv(vf::serialize(c)));
+		});
+	}();
 	[&]() { vf::check_cases("inilong", a.n(300, 3000), 100, inilonggen(), classify_ini); }();
 	[&]() { vf::check_cases("csv", a.n(2000, 10000), 100, csvgen(), classify_csv); }();
 }
